@@ -597,3 +597,6 @@ M("m106", "C14", "R14.1", HENDRIX,
   "Hendrix: state bounds interleaved [a,b,a,b] instead of blocked [a,a,b,b] (from seeded change C14; decided by instantiating the useful life)")
 M("m107", "C03", "R3.3", BATCH, "        self.n_pad = total_size - n_states\n", "        self.n_pad = -n_states % self.batch_size\n",
   "padding computed modulo the batch size only (whole padding batches on the last device are not stripped) - from seeded change C03")
+M("m108", "C20", "R20.9", LOGGING, "    if verbose < 0 or verbose > 4:", "    if verbose < 0 or verbose > 3:", "verbosity 4 (accepted by every validator) is rejected in the constructor")
+M("m109", "C20", "R20.9", LOGGING, "        3: \"DEBUG\",  # Show detailed progress\n        4: \"TRACE\",  # Show everything", "        3: \"TRACE\",  # Show detailed progress\n        4: \"DEBUG\",  # Show everything", "levels 3 and 4 swapped")
+M("m110", "C20", "R20.9", SOLVER, "            valid_levels = {\"ERROR\": 0, \"WARNING\": 1, \"INFO\": 2, \"DEBUG\": 3, \"TRACE\": 4}", "            valid_levels = {\"ERROR\": 0, \"WARNING\": 1, \"INFO\": 2, \"DEBUG\": 4, \"TRACE\": 3}", "string levels crossed")
